@@ -114,13 +114,98 @@ class Operand:
 
 def build(stmt_fn, operands):
     """program text + input for a statement using the given operands"""
-    setup = "".join(o.setup() for o in operands)
-    fields = [o.field() for o in operands if o.field()]
+    setups = []
+    for o in operands:
+        if o.setup() not in setups:
+            setups.append(o.setup())
+    setup = "".join(setups)
+    fields = []
+    for o in operands:
+        fields += o.fields() if isinstance(o, Place) else [o.field()] if o.field() else []
     body = setup + stmt_fn(*[o.text() for o in operands])
+    pre = FUNCDEF + (PLACE_FUNCS if any(isinstance(o, Place) for o in operands) else "")
     if fields:
         doc = "{" + ", ".join('"%s": %s' % (k, v) for k, v in dict(fields).items()) + "}"
-        return FUNCDEF + "{ " + body + " }", [doc]
-    return FUNCDEF + "BEGIN { " + body + " }", []
+        return pre + "{ " + body + " }", [doc]
+    return pre + "BEGIN { " + body + " }", []
+
+
+# ---------------------------------------------------------------- nulls that come from reading a place where nothing is
+PLACE_FUNCS = "function fnone() { }\nfunction fside(q) { q = 1 }\nfunction fid(q) { return q }\n"
+# text, setup statement, where ("any" | "begin" = only in BEGIN, no input | "main" = needs the document), assignable (usable as ++/-- target)
+PLACES = [
+    ("ma[7]", "ma = [1, 2]", "any", True),              # past the end
+    ("ma[2]", "ma = [1, 2]", "any", True),              # first index past the end
+    ("ma[100]", "ma = [1, 2]", "any", False),
+    ("ma[2.5]", "ma = [1, 2]", "any", False),
+    ("mb[-2]", "mb = [5, null, 7]", "any", False),      # negative index inside the array, the element is a stored null
+    ("mb[1]", "mb = [5, null, 7]", "any", False),
+    ("me[0]", "me = []", "any", True),
+    ("me[-0]", "me = []", "any", False),
+    ("mo.nope", "mo = {k: 1}", "any", True),            # missing member
+    ('mo["9"]', "mo = {k: 1}", "any", True),
+    ("mo[9]", "mo = {k: 1}", "any", True),              # missing member named by a number
+    ('mo["1e3"]', "mo = {k: 1}", "any", False),
+    ("mo.nope.deeper", "mo = {k: 1}", "any", False),    # missing member of a missing member
+    ("mo.a.b.c", "mo = {k: 1}", "any", False),
+    ("mo.nope[4]", "mo = {k: 1}", "any", False),
+    ("ma[7][3]", "ma = [1, 2]", "any", False),
+    ("ma[7].zz", "ma = [1, 2]", "any", False),
+    ("mn[6]", "mn = [[1], [2, 3]]", "any", False),
+    ("mn[1][5]", "mn = [[1], [2, 3]]", "any", True),
+    ("mn[9][5]", "mn = [[1], [2, 3]]", "any", False),
+    ("uu.k", "", "any", True),                          # member of an unset variable
+    ("uv[4]", "", "any", True),
+    ("fnone()", "", "any", False),                      # function without return
+    ("fside(3)", "", "any", False),
+    ("fid(ma[7])", "ma = [1, 2]", "any", False),        # the missing element handed through a call
+    ("fid(mo.nope)", "mo = {k: 1}", "any", False),
+    ("[ma[7]][0]", "ma = [1, 2]", "any", False),        # ... through an array literal
+    ("{k: ma[3]}.k", "ma = [1, 2]", "any", False),
+    ("(ma[7])", "ma = [1, 2]", "any", False),
+    ("mv", "ma = [1, 2]\n mv = ma[7]", "any", True),    # ... through an assignment
+    ("mw", "mo = {k: 1}\n mw = mo[5]", "any", True),
+    ('ms[9]', 'ms = "abc"', "any", False),              # character past the end of a string
+    ("$", "", "begin", False),                          # $ in BEGIN
+    ("$.x", "", "begin", False),
+    ("$[3]", "", "begin", False),
+    ("$.x.y", "", "begin", False),
+    ("$[3][4]", "", "begin", False),
+    ("$.xs[5]", "", "main", False),                     # the same on the document
+    ("$.xs[2]", "", "main", False),
+    ("$.xs[-2]", "", "main", False),
+    ("$.missing", "", "main", False),
+    ("$.missing.more", "", "main", False),
+    ("$.missing[8]", "", "main", False),
+    ("$.ob.zz", "", "main", False),
+    ("$.ob[7]", "", "main", False),
+    ('$.ob["12"]', "", "main", False),
+    ("$.nul", "", "main", False),
+    ("$.xs[5][6]", "", "main", False),
+]
+NULLP = ("null", None, None, "null")
+
+
+class Place:
+    """an operand that is a read of a place holding nothing: it must behave as the literal null"""
+    p = NULLP
+
+    def __init__(self, place):
+        self.expr, self.stp, self.where, self.assignable = place
+        self.mode = "place:" + self.expr
+
+    def setup(self):
+        return self.stp + "\n " if self.stp else ""
+
+    def text(self):
+        return self.expr
+
+    def field(self):
+        return None
+
+    def fields(self):
+        # "xs" holds a stored null at [-2] so that $.xs[-2] is in range
+        return [("xs", "[null, 20]"), ("ob", '{"k": 1}'), ("nul", "null")] if self.where == "main" else []
 
 
 def fmt_res(v):
@@ -188,6 +273,11 @@ class C05(Check):
             "longer + chains with the first string at every position, flat chains of one operator and of operators of one "
             "precedence level for every operator, random fully parenthesised trees of 3-6 operands over all operators, each "
             "application judged by the table on the values its operands actually have; "
+            "nulls that are READ from a place where nothing is (48 places: array element past the end, negative in range, missing "
+            "member incl. numeric keys, missing member of a missing member, member of an unset variable, function without return, "
+            "string index past the end, $ and its members in BEGIN, missing document fields; directly and handed through calls, "
+            "literals, assignments) in both operand positions of every binary operator against every kind, under unary operators, is, "
+            "&& ||, ++ -- and compound assignment, and at every position of chains: judged as the literal null; "
             "non-trivial = an operand is not a small positive integer literal")
 
     # ------------------------------------------------------------------ generation
@@ -258,6 +348,7 @@ class C05(Check):
                 rs = [rng.choice(passable) for _ in range(n)]
             self.repeated(op, ls, rs, rng.choice(["func", "loop", "records"]))
         self.chains(rng, thorough, kinds)
+        self.places(rng, thorough, kinds)
         # random doubles by bit pattern
         nrand = 30000 if thorough else 500
         for _ in range(nrand):
@@ -372,6 +463,98 @@ class C05(Check):
         else:
             want = ("ok", fmt_res(opref.truthy(rv)) + " " + fmt_res(rv) + "\n")
         self.add(prog, inp, want, {"op": op + " " + rhs, "l": p[0], "modes": L.mode})
+
+    # ------------------------------------------------------------------ null read from a place where nothing is
+    def other(self, rng, place, p):
+        """a palette operand that can stand next to the given place in one program"""
+        mode = rng.choice(["lit", "var", "fld"])
+        if place.where == "begin" and mode == "fld":
+            mode = "var"
+        return Operand(p, mode, "q")
+
+    def places(self, rng, thorough, kinds):
+        P = PALETTE
+        for place in PLACES:
+            X = Place(place)
+            meta = lambda op, l, r, ms: {"op": op, "l": l, "r": r, "modes": ms}
+            for op in BINOPS:
+                # the other operand: one of every kind (all of them in the thorough tier), and always a number that is not 0
+                others = list(P) if thorough else [P[rng.choice(kinds[k])] for k in KINDS] + [P[IDX[rng.choice(["3", "-7", "2.5", "'10'", "true"])]]]
+                for q in others:
+                    for side in ("l", "r"):
+                        if not thorough and rng.random() < 0.4:
+                            continue
+                        Q = self.other(rng, X, q)
+                        if side == "l":
+                            prog, inp = build(lambda a, b: "print (%s %s %s)" % (a, op, b), [X, Q])
+                            self.add(prog, inp, expect_binary(op, None, q[1]), meta(op, X.expr, q[0], X.mode + "," + Q.mode), ("place",))
+                        else:
+                            prog, inp = build(lambda a, b: "print (%s %s %s)" % (b, op, a), [X, Q])
+                            self.add(prog, inp, expect_binary(op, q[1], None), meta(op, q[0], X.expr, Q.mode + "," + X.mode), ("place",))
+                # the place on both sides, and against another place of the same program shape
+                prog, inp = build(lambda a: "print (%s %s %s)" % (a, op, a), [X])
+                self.add(prog, inp, expect_binary(op, None, None), meta(op, X.expr, X.expr, "same-" + X.mode), ("place",))
+                compatible = [pl for pl in PLACES if pl[2] == "any" or X.where == "any" or pl[2] == X.where]
+                for pl in (compatible if thorough else rng.sample(compatible, 2)):
+                    Y = Place(pl)
+                    prog, inp = build(lambda a, b: "print (%s %s %s)" % (a, op, b), [X, Y])
+                    self.add(prog, inp, expect_binary(op, None, None), meta(op, X.expr, Y.expr, X.mode + "," + Y.mode), ("place",))
+            for op in UNOPS:
+                prog, inp = build(lambda a: "print (%s%s)" % (op, a), [X])
+                self.add(prog, inp, ("ok", fmt_res(opref.unop(op, None)) + "\n"), meta("unary" + op, X.expr, "", X.mode), ("place",))
+                inner = rng.choice(UNOPS)
+                prog, inp = build(lambda a: "print (%s(%s%s))" % (op, inner, a), [X])
+                self.add(prog, inp, ("ok", fmt_res(opref.unop(op, opref.unop(inner, None))) + "\n"), meta("unary" + op + "(" + inner, X.expr, "", X.mode), ("place",))
+            for name in (ISNAMES if thorough else ["null", "unknown", "number"] + rng.sample(ISNAMES, 2)):
+                prog, inp = build(lambda a: "print (%s is %s)" % (a, name), [X])
+                self.add(prog, inp, ("ok", fmt_res(opref.isop(None, name)) + "\n"), meta("is " + name, X.expr, "", X.mode), ("place",))
+            for op in ("&&", "||"):
+                for rhs in ("(x = 1)", "(1 / 0)"):
+                    prog, inp = build(lambda a: "t = (%s %s %s)\n print t, x" % (a, op, rhs), [X])
+                    if op == "&&":
+                        want = ("ok", "false <unknown>\n")
+                    else:
+                        want = ("runtime", "") if rhs == "(1 / 0)" else ("ok", "true 1\n")
+                    self.add(prog, inp, want, meta(op + " " + rhs, X.expr, "", X.mode), ("place",))
+            if X.assignable:
+                for form in ("x++", "x--", "++x", "--x"):
+                    expr = form.replace("x", X.expr)
+                    prog, inp = build(lambda a: "print %s, %s" % (expr, a), [X])
+                    new = 1.0 if "++" in form else -1.0
+                    val = new if form[0] in "+-" else 0.0
+                    self.add(prog, inp, ("ok", fmt_res(val) + " " + fmt_res(new) + "\n"), meta(form, X.expr, "", X.mode), ("place",))
+                for cop, res in (("+=", 3.0), ("-=", -3.0), ("*=", 0.0), ("/=", 0.0)):
+                    prog, inp = build(lambda a: "print (%s %s 3), %s" % (a, cop, a), [X])
+                    self.add(prog, inp, ("ok", fmt_res(res) + " " + fmt_res(res) + "\n"), meta(cop, X.expr, "3", X.mode), ("place",))
+            # inside chains: the place at every position of a flat chain of one precedence level, and in random trees
+            for rep in range(40 if thorough else 8):
+                n = rng.randint(3, 5)
+                if rep % 2 == 0:
+                    level = rng.choice(SAME_LEVEL[:3])
+                    t = left_chain([rng.choice(level) for _ in range(n - 1)])
+                    style = "flat"
+                else:
+                    t = self.rand_tree(rng, 0, n - 1)
+                    style = "paren"
+                ps = self.chain_operands(rng, t, n, kinds)
+                at = rep // 2 % n
+                ops = tree_ops(t)
+                operands = [X if i == at else self.other(rng, X, p) for i, p in enumerate(ps)]
+                for i, o in enumerate(operands):
+                    if o is not X:
+                        o.side = "o%d" % i
+                vals = [None if i == at else p[1] for i, p in enumerate(ps)]
+                if style == "flat":
+                    prog, inp = build(lambda *texts: "print (%s)" % flat_src(ops, texts), operands)
+                else:
+                    prog, inp = build(lambda *texts: "print %s" % tree_src(t, texts), operands)
+                try:
+                    want = ("ok", fmt_res(tree_eval(t, vals)) + "\n")
+                except RuntimeErr:
+                    want = ("runtime", "")
+                self.add(prog, inp, want, {"op": "chain " + " ".join(ops) + " (" + style + ")",
+                                           "l": " ".join(X.expr if i == at else p[0] for i, p in enumerate(ps)), "r": "",
+                                           "modes": ",".join(o.mode for o in operands)}, ("place", "chain"))
 
     # ------------------------------------------------------------------ chains
     def chains(self, rng, thorough, kinds):
